@@ -18,15 +18,19 @@ type tdesc struct {
 }
 
 func transports() []tdesc {
-	return append([]tdesc{{"udp", func() transport { return &udpT{} }, []bool{true, false}}}, moreTransports()...)
+	return append([]tdesc{{"udp", func() transport { return &udpT{} }, []bool{true, false}},
+		{"dtls-session", func() transport { return &udpT{dtls: true} }, []bool{true}}}, moreTransports()...)
 }
 
-type udpT struct{ w *udpw.World }
+type udpT struct {
+	w    *udpw.World
+	dtls bool // the real dtls/server.Session over an in-memory datagram conn instead of the in-memory session
+}
 
 func (t *udpT) Name() string   { return "udp" }
 func (t *udpT) Datagram() bool { return true }
 func (t *udpT) Build(bw bool) {
-	t.w = udpw.New(udpw.Opts{NStart: 4, MaxRetransmit: 2, LimitTotal: 8, LimitEndpoint: 8, QueueSize: 4, BlockWise: bw, SZX: blockwise.SZX16})
+	t.w = udpw.New(udpw.Opts{NStart: 4, MaxRetransmit: 2, LimitTotal: 8, LimitEndpoint: 8, QueueSize: 4, BlockWise: bw, SZX: blockwise.SZX16, DTLS: t.dtls})
 }
 func (t *udpT) Acquire(ctx context.Context) *pool.Message { return t.w.CC.AcquireMessage(ctx) }
 func (t *udpT) Do(req *pool.Message) (*pool.Message, error) { return t.w.CC.Do(req) }
